@@ -13,6 +13,7 @@ import PsModel.Parallel
 import PsModel.Store
 import PsModel.NthPrime
 import PsModel.Config
+import PsModel.IteratorC
 
 open Ps
 
@@ -29,6 +30,21 @@ def prevEnv (st : Iter) : Env :=
     let a := u.1
     let b := u.2.1
     if a ≤ b ∧ b - a ≥ 20000 ∧ b - a ≤ 60000000 ∧ b ≤ 200000000000000 then
+      let t := segmentTable a b
+      { isPrime := tableIsPrime a b t, o := floatOracle }
+    else driverEnv
+  else driverEnv
+
+/-- environment for a next_prime call: if the call is going to refill the buffer with a long block
+    (the real generator fills the whole grown buffer after a backward run), sieve the chunk first -/
+def nextEnv (st : Iter) (k : Nat) : Env :=
+  if st.i + 1 ≥ st.size ∧ k > 3000 then
+    let ab : Nat × Nat := match st.gen with
+      | some g => (g.lo, g.stop)
+      | none => let u := updateNext floatOracle st; (u.1, u.2.1)
+    let a := ab.1
+    let b := ab.2
+    if a ≤ b ∧ b - a ≤ 60000000 ∧ b ≤ 200000000000000 then
       let t := segmentTable a b
       { isPrime := tableIsPrime a b t, o := floatOracle }
     else driverEnv
@@ -66,7 +82,7 @@ def iterLine (st : Iter) (op : String) : Iter × String :=
   | ["next", k] =>
     match kv k with
     | some k =>
-      match st.next driverEnv k with
+      match st.next (nextEnv st k) k with
       | (.ok v, st') => (st', s!"v={v} " ++ iterState st')
       | (.error e, st') => (st', s!"v=ERR:{errName e} " ++ iterState st')
     | none => (st, "bad-op")
@@ -83,6 +99,59 @@ partial def iterLoop (h : IO.FS.Stream) (st : Iter) : IO Unit := do
   let (st', out) := iterLine st op
   IO.println s!"{op} => {out}"
   iterLoop h st'
+
+
+/-- `multi` stream: `<idx> <iter op>` over eight iterator states -/
+partial def multiLoop (h : IO.FS.Stream) (sts : Array Iter) : IO Unit := do
+  let line ← h.getLine
+  if line.isEmpty then return ()
+  let line := line.trimAscii.toString
+  let op := (line.splitOn " => ").headD ""
+  match (op.splitOn " ").filter (· ≠ "") with
+  | idx :: rest =>
+    let i := idx.toNat?.getD 0
+    let st := sts.getD i (Iter.mk' 0 umax)
+    let (st', out) := iterLine st (" ".intercalate rest)
+    IO.println s!"{op} => {out}"
+    multiLoop h (sts.setIfInBounds i st')
+  | [] => multiLoop h sts
+
+def citerState (c : CIter) (edom : Bool) : String :=
+  iterState c.it ++ s!" err={if c.isError then 1 else 0} edom={if edom then 1 else 0}"
+
+/-- one line of the `iterc` stream -/
+def itercLine (c : CIter) (op : String) : CIter × String :=
+  match (op.splitOn " ").filter (· ≠ "") with
+  | ["new", s, h] =>
+    match s.toNat?, h.toNat? with
+    | some s, some h => let c' := CIter.init.jumpTo s h; (c', citerState c' false)
+    | _, _ => (c, "bad-op")
+  | ["jump", s, h] =>
+    match s.toNat?, h.toNat? with
+    | some s, some h => let c' := c.jumpTo s h; (c', citerState c' c.edom)
+    | _, _ => (c, "bad-op")
+  | ["skipto", s, h] =>
+    match s.toNat?, h.toNat? with
+    | some s, some h => let c' := c.skipTo s h; (c', citerState c' c.edom)
+    | _, _ => (c, "bad-op")
+  | ["clear"] => let c' := c.clear; (c', citerState c' c.edom)
+  | ["next", k] =>
+    match kv k with
+    | some k => let r := c.next (nextEnv c.it k) k; (r.2, s!"v={r.1} " ++ citerState r.2 r.2.edom)
+    | none => (c, "bad-op")
+  | ["prev", _] =>
+    let r := ({ c with it := c.it } : CIter).prev (prevEnv c.it)
+    (r.2, s!"v={r.1} " ++ citerState r.2 r.2.edom)
+  | _ => (c, "bad-op")
+
+partial def itercLoop (h : IO.FS.Stream) (c : CIter) : IO Unit := do
+  let line ← h.getLine
+  if line.isEmpty then return ()
+  let line := line.trimAscii.toString
+  let op := (line.splitOn " => ").headD ""
+  let (c', out) := itercLine c op
+  IO.println s!"{op} => {out}"
+  itercLoop h c'
 
 /-- EratCfg with the double-precision products evaluated as in C++ -/
 def floatCfg (l1 : Nat) : EratCfg :=
@@ -337,6 +406,8 @@ def main (args : List String) : IO UInt32 := do
     | "store" => lineLoop s storeLine; return 0
     | "nth" => lineLoop s nthLine; return 0
     | "cfg" => lineLoop s cfgLine; return 0
+    | "multi" => multiLoop s (Array.replicate 8 (Iter.mk' 0 umax)); return 0
+    | "iterc" => itercLoop s CIter.init; return 0
     | "bench" =>
       let n := (← IO.FS.readFile file).trimAscii.toString.toNat?.getD 1000
       let t00 ← IO.monoMsNow
